@@ -14,6 +14,7 @@ import Ivg.Gen.Tie.Code.Encoder3
 import Ivg.Gen.Tie.Code.Encoder4
 import Ivg.Gen.Tie.Code.Encoder5
 import Ivg.Gen.Tie.Code.Encoder6
+import Ivg.Gen.Tie.Code.Vec
 import Ivg.Obligations
 /-!
 # C17 — the output of an Encoder / Renderer depends only on the calls since its last Reset
@@ -214,6 +215,26 @@ theorem wellBracketedOps_of_calls (cs : List (Call α)) (b : Bool) (h : WellBrac
 
 end renderer_histories
 
+/-! ## the rasteriser adapter reused
+
+"A Renderer and its rasteriser reused for another decode give the results of fresh objects": the repository's part of
+the rasteriser is `raster/vec.Rasterizer`, whose only state of its own is the one-shot compositing operator.
+(`Ivg/Model/VecAdapter.lean`, tied to the code by `Gen.Tie.vecDraw_code_tie`.) -/
+
+/-- What a used adapter asks of the library for a later history `b` is what a FRESH adapter on the same destination asks
+    whose operator is the one the used adapter has by then … -/
+theorem adapter_reuse {H : Type} (z : Vec.Adapter H) (a b : List (Vec.DrawArgs H)) :
+    (z.draws (a ++ b)).inner = (z.draws a).inner ++ ((⟨z.dst, (z.draws a).drawOp, []⟩ : Vec.Adapter H).draws b).inner := by
+  rw [Vec.draws_append, Vec.draws_inner (⟨z.dst, (z.draws a).drawOp, []⟩ : Vec.Adapter H)]; simp
+
+/-- … and that operator is source-over, the operator of a fresh `vec.Rasterizer`, as soon as the earlier history made
+    one Draw call — into whatever rectangle, an empty one included. -/
+theorem adapter_reuse_after_drawing {H : Type} (z : Vec.Adapter H) (a b : List (Vec.DrawArgs H)) (h : a ≠ []) :
+    (z.draws (a ++ b)).inner = (z.draws a).inner ++ ((⟨z.dst, Vec.over, []⟩ : Vec.Adapter H).draws b).inner := by
+  rw [adapter_reuse, Vec.draws_op z a h]
+example : ((⟨7, 1, []⟩ : Vec.Adapter Nat).draws ([⟨⟨0, 0, 0, 0⟩, 3, 0, 0⟩] ++ [⟨⟨2, 2, 6, 6⟩, 5, 0, 0⟩])).inner =
+    ((⟨7, 1, []⟩ : Vec.Adapter Nat).draws [⟨⟨0, 0, 0, 0⟩, 3, 0, 0⟩]).inner ++ [.setOp 0, .draw 7 ⟨2, 2, 6, 6⟩ 5 0 0] := by decide
+
 /-!
 ## Not proved in this file
 
@@ -320,4 +341,7 @@ end Ivg.Props.C17
   Ivg.Gen.Tie.reset_code_tie_state,
   Ivg.Gen.Tie.wfEnc_init,
   Ivg.Gen.Tie.wfEnc_step,
-  Ivg.Gen.Tie.wfEnc_runOps]
+  Ivg.Gen.Tie.wfEnc_runOps,
+  Ivg.Props.C17.adapter_reuse, Ivg.Props.C17.adapter_reuse_after_drawing,
+  -- regenerated code (translator): (*vec.Rasterizer).Draw, the library rasteriser an opaque object
+  Ivg.Gen.Tie.vecDraw_code_tie]
